@@ -49,6 +49,75 @@ def make_files(rng, k, lang, equal_names=False, only=None):
     return files
 
 
+POOL = ['Item', 'Node', 'Leaf', 'Edge']
+
+
+def imports_ambiguity(app_imports, defs, importer='app'):
+    """Declarative class of inputs on which the unchanged code resolves through a HashSet/HashMap iteration.
+    app_imports: set of (crate, name), name '*' for a glob: the imports that survive per file (explicit imports of names the file's
+    types mention, and all globs), merged over the files of the importing crate;  defs: crate -> {rust name: generated name}.
+    An explicit import (c, n) contributes an import line for crate c when c generates a type NAMED n (generated names), otherwise the
+    fallback takes the first crate in HashMap order that generates a type named n. Returns a class name or None."""
+    explicit = sorted(i for i in app_imports if i[1] != '*')
+    targets = {}
+    for (c, n) in explicit:
+        if n in set(defs.get(c, {}).values()):
+            targets[(c, n)] = {c}
+        else:
+            targets[(c, n)] = {k for k, d in defs.items() if k != importer and n in set(d.values())}
+    # serde-rename resolution: first import of the name whose crate renames it
+    for n in sorted({n for _, n in explicit}):
+        renames = {defs[c][n] for (c, m) in explicit if m == n and c in defs and n in defs[c] and defs[c][n] != n}
+        if len(renames) >= 2:
+            return 'one-name-imported-from-two-crates-that-rename-it-differently'
+    if any(len(t) >= 2 for t in targets.values()):
+        return 'import-falls-back-to-one-of-several-crates-generating-the-name'
+    for (c, m) in app_imports:
+        if m == '*' and any(c in t for t in targets.values()):
+            return 'glob-import-next-to-an-import-resolving-to-the-same-crate'
+    return None
+
+
+def import_workspace(rng):
+    """2-3 library crates defining types drawn from a small pool (so equal names across crates are common, each with its own
+    serde rename half of the time) and an `app` crate of 2-3 files whose use statements (explicit, grouped, glob) and fields refer to them."""
+    libs = ['alpha', 'beta', 'gamma'][:rng.randint(2, 3)]
+    files, defs = {}, {}
+    for c in libs:
+        names = [n for n in POOL if rng.random() < 0.6] or [rng.choice(POOL)]
+        defs[c] = {}
+        src = ''
+        for n in names:
+            renamed = rng.random() < 0.5
+            defs[c][n] = f'{c.capitalize()}{n}' if renamed else n
+            ren = f'#[serde(rename = "{c.capitalize()}{n}")]\n' if renamed else ''
+            src += f'#[typeshare]\n{ren}pub struct {n} {{ pub {c}_{n.lower()}: u32 }}\n\n'
+        files[f'{c}/src/lib.rs'] = src
+    app_imports = set()
+    for k in range(rng.randint(2, 3)):
+        uses, local = [], set()
+        for c in libs:
+            r = rng.random()
+            taken = {m for (_, m) in local}          # one file never imports a name twice (that would not be valid Rust)
+            free = sorted(set(defs[c]) - taken)
+            if r < 0.3:
+                uses.append(f'use {c}::*;')
+                local.add((c, '*'))
+            elif r < 0.65 and free:
+                n = rng.choice(free)
+                uses.append(f'use {c}::{n};')
+                local.add((c, n))
+            elif r < 0.8 and len(free) >= 2:
+                ns = rng.sample(free, 2)
+                uses.append(f'use {c}::{{{ns[0]}, {ns[1]}}};')
+                local |= {(c, ns[0]), (c, ns[1])}
+        refs = rng.sample(POOL, rng.randint(1, 3))
+        app_imports |= {(c, m) for (c, m) in local if m == '*' or m in refs}     # reconcile_referenced_types keeps only these
+        body = ''.join(f'    pub f{i}: {"Vec<" + n + ">" if rng.random() < 0.3 else n},\n' for i, n in enumerate(refs))
+        files[f'app/src/m{k}.rs'] = '\n'.join(uses) + f'\n\n#[typeshare]\npub struct App{k} {{\n{body}}}\n'
+    return {'files': files, 'ambiguity': imports_ambiguity(app_imports, defs)}
+
+
 def digest_dir(d):
     out = {}
     for root, _, fs in os.walk(d):
@@ -200,6 +269,54 @@ def run(chk):
                 break
         else:
             chk.sample({'files': nfiles, 'lang': lang, 'multi_file': multi, 'fresh_processes': len(results), 'cpu_sets': reps, 'distinct_outputs': 1})
+    # ---- (c) multi-file mode with cross-crate imports: fresh processes (fresh hash seeds) and, via the hook, arrival orders.
+    # Import sets are HashSets merged per crate; renames and import lines are resolved through them. The input classes in
+    # which the UNCHANGED code already picks by hash order are decided on the input (imports_ambiguity) and are recorded findings.
+    nws = 30 if chk.tier == 'quick' else 200
+    reps_c = 8 if chk.tier == 'quick' else 24
+    wjobs, wmeta, wss = [], [], []
+    for w in range(nws):
+        ws = import_workspace(rng)
+        root = work / f'ws{w}'
+        for rel, src in ws['files'].items():
+            f = root / rel
+            f.parent.mkdir(parents=True, exist_ok=True)
+            f.write_text(src)
+        wss.append(ws)
+        lang, ext, extra, cfg = LANGS[[0, 1, 0, 5, 2, 4][w % 6]]
+        ws['lang'] = lang
+        for r in range(reps_c):
+            wjobs.append((root, None, lang, ext, extra, True))
+            wmeta.append(w)
+        napp = len([f for f in ws['files'] if f.startswith('app/')])
+        for order in list(itertools.permutations(range(len(ws['files']))))[:: max(1, (len(ws['files']) > 4) * 7 + 1)][:6]:
+            wjobs.append((root, order, lang, ext, extra, True))
+            wmeta.append(w)
+    with concurrent.futures.ThreadPoolExecutor(max_workers=vf.NPROC) as ex:
+        wouts = list(ex.map(run_perm, wjobs))
+    per = {}
+    for w, o in zip(wmeta, wouts):
+        per.setdefault(w, []).append(o)
+    for w, ws in enumerate(wss):
+        outs_w = per[w]
+        chk.count('import_workspace_runs', len(outs_w))
+        chk.evaluations += len(outs_w)
+        chk.nontrivial.add(('ws', w))
+        amb = ws['ambiguity']
+        chk.count('import_workspaces_' + (amb or 'unambiguous'))
+        distinct = {json.dumps((rc, dg), sort_keys=True) for rc, dg, _ in outs_w}
+        payload = {'workspace': ws['files'], 'lang': ws['lang'], 'mode': 'multi-file (-d)', 'ambiguity_class': amb, 'runs': len(outs_w),
+                   'distinct_outputs': [json.loads(x) for x in sorted(distinct)][:3]}
+        if any(rc not in (0, 1) for rc, _, _ in outs_w):
+            chk.count('crashed_runs (C07)')
+        if len(distinct) > 1:
+            if amb is None:
+                chk.violation(f'ws{w}', payload, f'{len(distinct)} different outputs over {len(outs_w)} runs of the same multi-crate workspace ({ws["lang"]}); '
+                              'no import of the workspace is ambiguous, so nothing may depend on the hash seed or arrival order')
+            elif not chk.known('C06-ambiguous-imports', payload):
+                chk.violation(f'ws{w}', payload, 'output varies with the hash seed on ambiguous imports; not a recorded open finding')
+        elif w < 2:
+            chk.sample({'workspace_files': sorted(ws['files']), 'lang': ws['lang'], 'runs': len(outs_w), 'distinct_outputs': 1, 'ambiguity_class': amb})
     shutil.rmtree(work, ignore_errors=True)
 
 
